@@ -395,7 +395,11 @@ func ProcessIndexRequestPle(tsNow uint64, indexNameIn string, flush bool,
 	}
 
 	for _, ple := range pleArray {
-		ple.SetTimestamp(utils.ExtractTimeStamp(ple.GetRawJson(), &tsKey))
+		// keep a time the protocol handler has already put on the event (e.g. OTLP time_unix_nano, HEC time)
+		// when the document itself has no timestamp field
+		if ts := utils.ExtractTimeStamp(ple.GetRawJson(), &tsKey); ts != 0 {
+			ple.SetTimestamp(ts)
+		}
 		if ple.GetTimestamp() == 0 {
 			ple.SetTimestamp(tsNow)
 		}
